@@ -208,6 +208,21 @@ func ioArtefacts() []ioArtefact {
 	pa := ioArtefact{Name: "ctn-car-padded-lengths", Kind: "ctn", Format: "car", Data: padded}
 	pa.Boundaries = carBoundaries(padded)
 	r = append(r, pa, ioArtefact{Name: "ctn-car64-padded-lengths", Kind: "ctn", Format: "car64", Data: []byte(base64.StdEncoding.EncodeToString(padded))})
+	// two CAR bodies glued together (every block occurs a second time), and one whose first block comes again at the
+	// end: whatever a reader makes of a repeated block, a stream that ends inside it is a stream that ended early
+	{
+		car := buildContainer("car", []string{"dlg", "inv", "dlg3"}).Data
+		l, n := binary.Uvarint(car)
+		body := car[n+int(l):]
+		l1, n1 := binary.Uvarint(body)
+		for name, data := range map[string][]byte{"ctn-car-glued": append(append([]byte{}, car...), body...), "ctn-car-first-block-again": append(append([]byte{}, car...), body[:n1+int(l1)]...)} {
+			ga := ioArtefact{Name: name, Kind: "ctn", Format: "car", Data: data}
+			ga.Boundaries = carBoundaries(data)
+			r = append(r, ga)
+		}
+		glued := append(append([]byte{}, car...), body...)
+		r = append(r, ioArtefact{Name: "ctn-car64-glued", Kind: "ctn", Format: "car64", Data: []byte(base64.StdEncoding.EncodeToString(glued))})
+	}
 	return r
 }
 
@@ -432,7 +447,7 @@ func c18ReadSub() *engine.Sub {
 	}
 	return &engine.Sub{
 		Name: "readers",
-		Rule: "every streaming decoder on every matching artefact (sealed and DAG-JSON tokens, containers; plus tokens and containers of 1 MiB and more, for which only the fault-free chunkings are compared): (1) chunk sizes {1,2,3,7,whole} x EOF {separate, with data}, and the stream cut into two pieces after k bytes for every k (and three: k, 1, rest) - one artefact carries characters of 1 to 4 bytes at several alignments -: result equals the buffered API's; (2) positional faults: an injected error after k delivered bytes for every k in [0,len] (returned alone, and returned together with the bytes up to k) and an early EOF for every k in [0,len) must yield an error (a CAR cut exactly at a block boundary yields exactly the blocks before it); one Read answering (0, nil) - nothing happened, call again - after k delivered bytes for every k, with chunks {whole, 1, 7}, must not change the result; one Read failing after k bytes with an error that calls itself temporary (EAGAIN, EINTR, deadline exceeded, a net-style timeout, ErrNoProgress, ErrShortBuffer), the reader being able to go on afterwards, must yield an error; (3) E3: deviation-bounded DFS over per-Read answers {all, 1 byte, half, last-bytes-with-EOF, early EOF, error, bytes-together-with-error, (0, nil) (at most twice, never twice in a row; explored in a second pass of the thorough tier with one deviation less: an empty read combined with one other deviation)}: fault-free schedules agree with the buffered API, faulty ones return an error; non-trivial = executions with at least one deviation or fault",
+		Rule: "every streaming decoder on every matching artefact (sealed and DAG-JSON tokens, containers; plus tokens and containers of 1 MiB and more, for which only the fault-free chunkings are compared): (1) chunk sizes {1,2,3,7,whole} x EOF {separate, with data}, and the stream cut into two pieces after k bytes for every k (and three: k, 1, rest) - one artefact carries characters of 1 to 4 bytes at several alignments -: result equals the buffered API's; (2) positional faults: an injected error after k delivered bytes for every k in [0,len] (returned alone, and returned together with the bytes up to k) and an early EOF for every k in [0,len) must yield an error (a CAR cut exactly at a block boundary yields exactly the blocks before it); one Read answering (0, nil) - nothing happened, call again - after k delivered bytes for every k, with chunks {whole, 1, 7}, bare and behind the caller's own *bufio.Reader, must not change the result; one Read failing after k bytes with an error that calls itself temporary (EAGAIN, EINTR, deadline exceeded, a net-style timeout, ErrNoProgress, ErrShortBuffer), the reader being able to go on afterwards, must yield an error; (3) E3: deviation-bounded DFS over per-Read answers {all, 1 byte, half, last-bytes-with-EOF, early EOF, error, bytes-together-with-error, (0, nil) (at most twice, never twice in a row; explored in a second pass of the thorough tier with one deviation less: an empty read combined with one other deviation)}: fault-free schedules agree with the buffered API, faulty ones return an error; non-trivial = executions with at least one deviation or fault",
 		Bound: func(t string) string {
 			return fmt.Sprintf("E3 deviation bound %d (per artefact x API), all offsets for positional faults, 10 chunkings", tierN(t, 2, 3))
 		},
@@ -627,11 +642,17 @@ func c18ReadSub() *engine.Sub {
 					lo, hi = cs.At, cs.At
 				}
 				for k := lo; k <= hi; k++ {
-					for _, ch := range []int{0, 1, 7} {
+					for vi, ch := range []int{0, 1, 7, 0, 1, 7} {
 						if a.Huge && (ch != 0 || c18HugeSkip(a, k)) {
 							continue
 						}
-						got, err := api.Stream(&engine.PosReader{Data: a.Data, Chunk: ch, FailAt: k, Mode: "stall"})
+						// variants 3-5: the caller has put its own *bufio.Reader (16-byte / 4 KiB buffer) around the source - a reader type the
+						// library knows, which passes an empty read of the source on when its buffer is empty
+						var src io.Reader = &engine.PosReader{Data: a.Data, Chunk: ch, FailAt: k, Mode: "stall"}
+						if vi >= 3 {
+							src = bufio.NewReaderSize(src, [3]int{16, 4096, 16}[vi-3])
+						}
+						got, err := api.Stream(src)
 						ctx.Eval(1)
 						ctx.Trans(1)
 						ctx.Nontrivial(1)
